@@ -248,6 +248,13 @@ def analyse_accept_condition(prog: Program, cond, taken: bool, bound_ok: Callabl
         else:
             others.append(m)
     if others:
+        # a slack that is computed from the matrices is not a tolerance: it grows with coefficients that have nothing
+        # to do with the tested row (a big-M bound elsewhere lets a visible violation pass)
+        data = [m for m in others if any(mentions(a, lambda y: isinstance(y, tuple) and len(y) == 2 and y[0] == "param" and not bound_ok(("sub", y, const(0)))) for a, _p in m)]
+        if data:
+            res["form"] = "bad"
+            res["why"] = "the slack granted to the optimum is computed from the problem data (%s): it is not bounded by a tolerance" % d.show()[:160]
+            return res
         res["why"] = "other quantities in the comparison: %s" % d.show()
         return res
     if len(funs) != 1 or len(bounds) != 1:
